@@ -274,6 +274,17 @@ def decision_table(stmts: Sequence[ast.stmt], atoms: Sequence[Atom], outputs: Se
                     continue
                 elif isinstance(st, ast.Return):
                     v = st.value
+                    # `return A and B` / `return A or B` with A a combination of the atoms: decided like `if A: return B else: return False`
+                    while isinstance(v, ast.BoolOp) and len(v.values) >= 2:
+                        try:
+                            a0 = _ev_atoms(v.values[0], val, atoms)
+                        except Unknown:
+                            break
+                        rest_ = v.values[1] if len(v.values) == 2 else ast.BoolOp(v.op, list(v.values[1:]))
+                        if isinstance(v.op, ast.And):
+                            v = rest_ if a0 else ast.Constant(False)
+                        else:
+                            v = ast.Constant(True) if a0 else rest_
                     if isinstance(v, ast.Name) and v.id in env:
                         env["<return>"] = env[v.id]
                     else:
